@@ -657,6 +657,41 @@ func runC04(c *fw.Ctx) {
 			c.Violate("parsefile-differs-from-parseobject", in+"; os.ReadFile of that path gives "+quoteBytes(string(want)), fmt.Sprintf("ParseObject: err=%q tree=%s", oo.Err, spec.Trunc(oo.Canon, 300)), fmt.Sprintf("ParseFile: err=%q tree=%s", of.Err, spec.Trunc(of.Canon, 300)))
 		}
 	})
+	// one path, rewritten between two calls with other bytes of the same length, the modification time put back: whatever
+	// Stat says, the second call answers for the bytes that are there now
+	rewrites := [][2]string{
+		{`{"a":1,"b":[true,null]}`, `{"a":2,"b":[null,true]}`}, {`{"k":"old value"}`, `{"k":"new value"}`}, {`{"k":"v"}`, `{"k":"v" `}, {`{"k":"v" `, `{"k":"v"}`},
+		{`{"k":[1,2,3]}`, `{"k":[1,2,3]]`}, {`{"a":{"b":{"c":"deep"}}}`, `{"a":{"b":{"c":"DEEP"}}}`}, {`{"x":10}`, `{"y":10}`}, {"{\"s\":\"\xc3\xa9\"}", "{\"s\":\"\xc3\x28\"}"},
+		{`{}`, `[]`}, {`{"n":1.5e3}`, `{"n":15e-1}`},
+	}
+	c.Cases("rewritten-file", len(rewrites)*2, true, func(i int, r *rng.R) {
+		pair := rewrites[i/2]
+		path := filepath.Join(dir, "rewritten.json")
+		stamp := time.Unix(1700000000, 0)
+		c.Distinct(fmt.Sprintf("rewritten %d", i))
+		var of parseOutcome
+		for k, text := range pair {
+			if err := os.WriteFile(path, []byte(text), 0o644); err != nil {
+				return
+			}
+			if i%2 == 0 {
+				os.Chtimes(path, stamp, stamp)
+			}
+			of = doParseFile(path)
+			c.Count("parsefile_calls")
+			want, _ := os.ReadFile(path)
+			oo := doParseObject(string(want))
+			in := fmt.Sprintf("ParseFile(%s), call %d of 2; the file was written with %s, then with %s (same length, modification time put back: %v)", quoteBytes(path), k+1, quoteBytes(pair[0]), quoteBytes(pair[1]), i%2 == 0)
+			if !checkOutcome(c, "ParseFile", in, of) {
+				return
+			}
+			if !sameOutcome(of, oo) {
+				c.Violate("parsefile-differs-from-parseobject", in, fmt.Sprintf("ParseObject of the bytes that are in the file now: err=%q tree=%s", oo.Err, spec.Trunc(oo.Canon, 300)), fmt.Sprintf("ParseFile: err=%q tree=%s", of.Err, spec.Trunc(of.Canon, 300)))
+				return
+			}
+		}
+		os.Remove(path)
+	})
 	// a path whose size as reported by Stat is not what reading it delivers: a named pipe fed by a writer
 	c.Cases("fifo", c.N(3, 20), true, func(i int, r0 *rng.R) {
 		doc := []string{`{"from":"a pipe","n":[1,2,3]}`, "{\"big\":\"" + strings.Repeat("x", 70000) + "\"}", `{"broken":`}[i%3]
